@@ -36,6 +36,14 @@ POSITIONS = {
     'create-table-select': 'create table int1.t9 (select a from {T})',
     'exists': 'select * from int1.t1 where exists (select 1 from {T})',
     'same-integration-join': 'select * from {T} as x join {T2} as y on x.a = y.a',
+    # the same model twice with different versions; a model after a sub-select that reads the same model
+    'two-model-versions': 'select * from int1.t1 as t join proj.pred2.1 as m1 join proj.pred2.2 as m2',
+    'model-version-and-plain': 'select * from int1.t1 as t join proj.pred2.3 as m1 join proj.pred2 as m2',
+    'two-models-then-table': 'select * from int1.t1 as t join mindsdb.pred.7 as m1 join {T} as x on x.a = t.a join mindsdb.pred.8 as m2',
+    # a CTE whose name equals the last part of an integration-qualified table of the same statement
+    'cte-name-shadows-table': 'with t2 as (select * from int2.t5) select * from int1.t2 as a join {T} as b on a.a = b.a',
+    'cte-name-shadows-single-table': 'with t2 as (select * from int2.t5) select * from int1.t2 where a in (select a from {T})',
+    'cte-and-same-named-table-both-used': 'with t2 as (select * from int2.t5) select * from t2 join int1.t2 as b on t2.a = b.a join {T} as c on c.a = b.a',
 }
 TARGETS = {
     'table-other-int': ('int2.t2', 'int2.t5'),
